@@ -23,6 +23,7 @@ def is_clean(rec):
 class ReadBase(Engine):
     harness = 'read'
     timeout = 1800
+    parallel = 8
     mismatch_is_failing_input = True
     keep_prefix = 2      # 'load' and the reference run stay when a case is shrunk
     _baseline = None
@@ -350,11 +351,11 @@ class Rd(ReadBase):
             return '-'
         small = sorted(p_ for n_, p_ in pool if os.path.getsize(p_) <= 6000)
         rng.shuffle(small)
-        if tier == 'quick':                    # stratified: up to five samples of every format family
+        if tier == 'quick':                    # stratified: up to twelve samples of every format family
             per = {}
             for p_ in small:
                 per.setdefault(only_of(p_), []).append(p_)
-            small = [p_ for f_ in sorted(per) for p_ in per[f_][:5]]
+            small = [p_ for f_ in sorted(per) for p_ in per[f_][:12]]
         for p_ in small:
             size = os.path.getsize(p_)
             ops = ['load ' + p_]
